@@ -652,16 +652,15 @@ Proof.
   intros Hc. destruct (op_addr o) as [t| |] eqn:Ha.
   - destruct (cstep c o) as [[c' r] f] eqn:E.
     destruct (cstep_local c o t c' r f (proj1 Hc) Ha E) as [_ H]. exact (proj1 (H Hc)).
-  - destruct o; cbn [op_addr] in Ha; try discriminate; cbn [cstep].
+  - destruct o; cbn [op_addr] in Ha; try discriminate; cbn [cstep]; try exact Hc.
     + destruct (n_prefix n); discriminate.
     + pose proof (cache_update_metadata_cinv c now Hc) as H.
       destruct (cache_update_metadata c now) as [[c1 l] p]. exact H.
     + cbn [fst]. now apply cinv_update_size.
     + destruct rm; discriminate.
-  - destruct o; cbn [op_addr] in Ha; try discriminate; cbn [cstep].
+  - destruct o; cbn [op_addr] in Ha; try discriminate; cbn [cstep]; try exact Hc.
     + destruct (n_prefix n) as [pr|] eqn:Hp; [discriminate|].
       unfold cache_gnmi_update. rewrite Hp. exact Hc.
-    + exact Hc.
     + destruct rm; [discriminate|]. destruct (cache_has_target c tgt); exact Hc.
 Qed.
 
@@ -669,9 +668,11 @@ Lemma mstep_cache s o :
   ms_cache (fst (fst (fst (mstep s o)))) = fst (fst (cstep (ms_cache s) o)).
 Proof.
   unfold mstep. destruct (cstep (ms_cache s) o) as [[c' r] f]. cbn [fst].
-  destruct o; try reflexivity.
-  - destruct (sub_attach c' tgt) as [sb out]. reflexivity.
-  - destruct (sub_attach_walk (ms_cache s) c' tgt (mfeed_list f)) as [sb out]. reflexivity.
+  destruct o;
+    repeat match goal with
+           | |- context [let '(_, _) := ?x in _] => destruct x
+           | |- context [match ms_gate s with _ => _ end] => destruct (ms_gate s) as [[? ?]|]
+           end; reflexivity.
 Qed.
 
 Theorem mrun_cinv ops : forall s, cinv (ms_cache s) -> cinv (ms_cache (mrun s ops)).
@@ -713,6 +714,10 @@ Proof.
   intros Ha. destruct o; cbn [op_addr] in Ha; try discriminate; cbn [cstep].
   - destruct (n_prefix n) as [pr|] eqn:Hp; [discriminate|].
     unfold cache_gnmi_update. rewrite Hp. intros H; inversion H; subst. split; reflexivity.
+  - intros H; inversion H; subst. split; reflexivity.
+  - intros H; inversion H; subst. split; reflexivity.
+  - intros H; inversion H; subst. split; reflexivity.
+  - intros H; inversion H; subst. split; reflexivity.
   - intros H; inversion H; subst. split; reflexivity.
   - destruct rm; [discriminate|]. destruct (cache_has_target c tgt); intros H; inversion H; subst; split; reflexivity.
 Qed.
@@ -807,36 +812,53 @@ Qed.
 (** the announced whole-target delete ends a running single-target stream of
     that name with status OK right after forwarding it; a stream on "*" forwards
     it and keeps running; an ended stream never receives anything again *)
-Theorem remove_ends_stream name now :
-  name <> "*"%string -> name <> ""%string ->
-  sub_step [delete_noti name "" now ["*"]] (Sub name SRunning) =
-    (Sub name SEndedOk, [SUpd (delete_noti name "" now ["*"])]) /\
-  sub_step [delete_noti name "" now ["*"]] (Sub "*" SRunning) =
-    (Sub "*" SRunning, [SUpd (delete_noti name "" now ["*"])]).
+Lemma mmatch_target_delete T q : mmatch (T :: q) [T; "*"%string] = true.
 Proof.
-  intros Hs Hne. unfold sub_step, stream_feed, offered. cbn [sub_stat sub_target].
-  rewrite is_target_delete_noti. split.
-  - destruct (String.eqb_spec name "*") as [|_]; [contradiction|]. cbn [negb andb orb].
-    assert (Hh : feed_head (delete_noti name "" now ["*"]) = Some name).
-    { unfold feed_head, delete_noti. cbn. unfold nonempty.
-      destruct (String.eqb_spec name ""); [contradiction|reflexivity]. }
-    rewrite Hh. rewrite String.eqb_refl. reflexivity.
-  - cbn. reflexivity.
+  cbn [mmatch]. destruct (String.eqb T "*") eqn:E.
+  - destruct q; cbn; [reflexivity|]. destruct q; reflexivity.
+  - rewrite String.eqb_refl, orb_true_r. cbn [andb]. destruct q; cbn; [reflexivity|].
+    destruct q; reflexivity.
 Qed.
 
-Theorem ended_stream_silent feed T st :
-  st <> SRunning -> sub_step feed (Sub T st) = (Sub T st, []).
+(** the whole-target delete reaches EVERY subscriber of that target, whatever
+    its subscription path, and ends its stream with status OK right after; a
+    subscriber on "*" (any path) forwards it and keeps running *)
+Theorem remove_ends_stream name now q :
+  name <> "*"%string -> name <> ""%string ->
+  sub_step [delete_noti name "" now ["*"]] (Sub name q SRunning) =
+    (Sub name q SEndedOk, [SUpd (delete_noti name "" now ["*"])]) /\
+  sub_step [delete_noti name "" now ["*"]] (Sub "*" q SRunning) =
+    (Sub "*" q SRunning, [SUpd (delete_noti name "" now ["*"])]).
+Proof.
+  intros Hs Hne. unfold sub_step, stream_feed. cbn [sub_stat sub_target sub_path].
+  rewrite is_target_delete_noti.
+  assert (Hp : noti_paths (delete_noti name "" now ["*"]) = [[name; "*"%string]]).
+  { unfold noti_paths, delete_noti. cbn. unfold nonempty.
+    destruct (String.eqb_spec name ""); [contradiction|reflexivity]. }
+  assert (Ho : forall T, T = name \/ T = "*"%string -> offered T q (delete_noti name "" now ["*"]) = true).
+  { intros T HT. unfold offered. rewrite Hp. cbn [existsb]. rewrite orb_false_r.
+    destruct HT as [->| ->]; [apply mmatch_target_delete|].
+    cbn [mmatch]. destruct (String.eqb name "*"); cbn; destruct q as [|? [|? ?]]; reflexivity. }
+  split.
+  - rewrite (Ho name (or_introl eq_refl)).
+    destruct (String.eqb_spec name "*") as [|_]; [contradiction|]. reflexivity.
+  - rewrite (Ho "*"%string (or_intror eq_refl)). reflexivity.
+Qed.
+
+Theorem ended_stream_silent feed T q st :
+  st <> SRunning -> sub_step feed (Sub T q st) = (Sub T q st, []).
 Proof. intros H. unfold sub_step. cbn [sub_stat]. destruct st; try reflexivity. contradiction. Qed.
 
 (** a stream on "*" is never ended by an announcement *)
-Theorem star_stream_never_ends feed :
-  fst (sub_step feed (Sub "*" SRunning)) = Sub "*" SRunning.
+Theorem star_stream_never_ends feed q :
+  fst (sub_step feed (Sub "*" q SRunning)) = Sub "*" q SRunning.
 Proof.
-  unfold sub_step. cbn [sub_stat sub_target].
-  assert (H : forall l, snd (stream_feed "*" l) = false).
-  { induction l as [|n l IH]; cbn; [reflexivity|].
-    destruct (stream_feed "*" l) as [out e]. cbn in *. exact IH. }
-  specialize (H feed). destruct (stream_feed "*" feed) as [out e]. cbn in *. now rewrite H.
+  unfold sub_step. cbn [sub_stat sub_target sub_path].
+  assert (H : forall l, snd (stream_feed "*" q l) = false).
+  { induction l as [|n l IH]; cbn [stream_feed]; [reflexivity|].
+    destruct (offered "*" q n); [|exact IH]. cbn [String.eqb negb andb].
+    destruct (stream_feed "*" q l) as [out e]. cbn in *. exact IH. }
+  specialize (H feed). destruct (stream_feed "*" q feed) as [out e]. cbn in *. now rewrite H.
 Qed.
 
 (** * Part 5: Reset *)
@@ -1575,3 +1597,25 @@ Proof.
         destruct (assoc name (c_targets (fst (fst st)))) as [t0|]; try contradiction; auto. congruence. }
   exact (proj2 (H (c_targets c) (c, [], None) Hc)).
 Qed.
+
+(** * Subscribers of one target do not depend on each other
+
+    What a subscriber is sent in a step is a function of its own registration
+    and the feed: connecting, disconnecting or blocking other subscribers (on
+    nested or sibling paths of the same target, in any order) changes nothing
+    for it. *)
+Theorem subscriber_independent feed s others1 others2 :
+  In (sub_step feed s) (map (sub_step feed) (others1 ++ s :: others2)).
+Proof. apply in_map, in_or_app. right. now left. Qed.
+
+Lemma cancel_sub_other i l j s :
+  nth_error l j = Some s -> j <> i -> nth_error (cancel_sub i l) j = Some s.
+Proof.
+  revert i j. induction l as [|x l IH]; intros i j Hn Hne; [destruct j; discriminate|].
+  destruct i as [|i]; destruct j as [|j]; cbn in *; try congruence; auto.
+Qed.
+
+(** a backlog only delays: releasing the blocked Send delivers exactly the
+    concatenation of what each step would have delivered *)
+Lemma zip_app_nil {A} (l : list (list A)) : zip_app (map (fun _ => []) l) l = l.
+Proof. induction l as [|x l IH]; cbn; [reflexivity|now rewrite IH]. Qed.
